@@ -10,4 +10,11 @@ open Strengths.Gen.PyNumeric
 limited number of digits (the model computes its values exactly and its texts through `repr`) -/
 theorem coarsegrain_full_precision : fullPrecision inv_coarsegrain = true := by decide +kernel
 
+/-- the only maxima / minima / absolute values taken in `coarsegrain.py` are the extrema of an index map (integers), the canonical order of a coarse edge's ends, and the saturation of summed chemostat flags to 1; no amount, rate, time or
+coefficient is clamped, and no exception is swallowed -/
+theorem coarsegrain_no_clamping :
+    clamp_coarsegrain =
+      [("clamp", "max(im)"), ("clamp", "min(im)"), ("clamp", "min(im)"), ("clamp", "max(im)"), ("clamp", "max(index_map)"), ("clamp", "min(i,j)"), ("clamp", "max(i,j)"), ("clamp", "min(cgchstt[i],1)")] := by
+  decide +kernel
+
 end Strengths.PyNumeric
